@@ -270,6 +270,13 @@ def fill_tie():
                     "FillGen.")
 
 
+def add_tie():
+    """Market._add_order (C04, C19, C08): the acceptance of one order"""
+    import py2coq_add
+    src = os.path.join(REPO, "pams", "market.py")
+    return _run_tie("translator:pams/market.py(_add_order)", src, lambda: py2coq_add.translate(REPO), "AddGen.v", "AddC04Proofs.v", "AddGen.")
+
+
 def runner_tie():
     """the per-order block of SequentialRunner._handle_orders, both copies (C09, C11)"""
     import py2coq_runner
